@@ -3,7 +3,9 @@
 Correspondence: `parse_url` / `normalize_url` of the working tree against `Url.parseUrl` in the Lean
 model (family `parse`, in-process, RFC 3986 generator restricted to gemini + mutations), and the request
 line a real `GeminiClient.get` writes against what a real `GeminiServerProtocol` behind TLS on loopback
-makes of it (family `wire`, spy handler; the model side is `Url.clientWire` / `Url.serverParse`).
+makes of it (family `wire`, spy handler; the model side is `Url.clientWire` / `Url.serverParse`); the same with the
+command line as the caller (family `cmdline`: every command of the typer tree that takes a URL, run in-process against the
+spy server; oracle only).
 """
 from __future__ import annotations
 
@@ -29,6 +31,7 @@ ASSUMPTIONS = [
     "theorems cover ASCII authorities; host names with non-ASCII characters are checked by correspondence (family parse: model compared when str.lower acts as ASCII lower-casing on the authority, direct oracle always) — not proved",
     "the IP-literal check is assumed to accept the lower-cased spelling of whatever it accepts (IpStable): ipaddress parses hex digits case-insensitively and the IPvFuture pattern allows both cases after the leading 'v'",
     "the UTF-8 encode/decode pair between client and server is treated as the identity on text (codec contract)",
+    "family cmdline runs the commands in-process (typer's CliRunner, private HOME) with BaseEventLoop.create_connection wrapped for the calling thread the way family wire wraps it; arguments the library rejects are run but not judged (a command line may complete or refuse what the library does not accept)",
     "family wire redirects the client's TCP connection to the loopback spy server whatever host/port the URL names (loop.create_connection is wrapped; the requested host/port are recorded), so default-port and non-resolvable host spellings can be exercised; TLS is real",
 ]
 LEVEL_TEXT = "partial"
@@ -47,6 +50,12 @@ SUBDELIMS = "!$&'()*+,;="
 HEX = "0123456789abcdefABCDEF"
 ODD = " \t\r\n\\|^`{}<>\"[]%#?@:/\x00\x1f\x7f"
 NONASCII_HOST = ["é", "ä", "ß", "İ", "Ａ", "ｅ", "℀", "／", "＠", "：", "？", "＃", "⁈", "ǅ", "Σ", "ς", "ı", "K", "Ω", "ﬁ", "٣", "日本", "­", "‍", "\U0001f600", "ª", "⑴", "︓", "﹕"]
+# raw non-ASCII text for paths and queries (IRIs): every Unicode normalisation situation - composed and decomposed spellings of the same
+# letter, singletons whose canonical form is another code point, conjoining jamo / syllables, marks in and out of canonical order,
+# composition exclusions, compatibility characters (only NFKC/NFKD touch them), case pairs, astral characters
+TEXT = ["é", "e\u0301", "ü", "u\u0308", "日", "\U0001f600", "İ", "\u212b", "\u00c5", "A\u030a", "\u2126", "\u03a9", "\u212a", "\u1100\u1161", "\uac00", "\u1100\u1161\u11a8",
+        "a\u0323\u0307", "a\u0307\u0323", "\u1e9b\u0323", "\u0958", "\u0915\u093c", "\u0344", "\u0340", "\u2000", "\ufb01", "\uff21", "\u00aa", "\u2460", "\u00df", "\u1e9e", "\u03c2",
+        "\u0131", "\u01c5", "\u0301", "\u00ad", "\u200d", "\u0f73", "\U0001d15e", "\u2adc", "\U0002f800"]
 SCHEMES = ["gemini"] * 12 + ["GEMINI", "Gemini", "gEmInI", "http", "titan", "gemini+x", "gemin", "geminii", "", "1gemini", "gem ini", "gemini\t"]
 SEEDS = [
     "gemini://[::1]/x", "gemini://[::1]", "gemini://[::1]:1965/", "gemini://[::1]:70/a?b", "gemini://[FE80::1%25eth0]/", "gemini://[fe80::1%eth0]:1966/p",
@@ -73,10 +82,10 @@ def pchar(rng):
         return pct(rng)
     if r < 0.82:
         return rng.choice(SUBDELIMS)
-    if r < 0.9:
+    if r < 0.89:
         return rng.choice(":@")
-    if r < 0.95:
-        return rng.choice(["é", "ü", "日", "\U0001f600", "İ"])
+    if r < 0.96:
+        return rng.choice(TEXT)
     return rng.choice(ODD)
 
 
@@ -378,6 +387,71 @@ WIRE_HOSTS = ["127.0.0.1", "localhost", "LOCALHOST", "LocalHost.", "[::1]", "[::
               "@localhost", ":@localhost", "xn--bcher-kva.example", "h%41", "a_b", "1.2.3.4", "[2001:db8::1]", "localhost[::1]", "exämple.com", "İ.example", "ＥＸ.example", "ß.example"]
 
 
+def judge_wire(u: str, obs, who: str):
+    """The property's last sentence, evaluated on what was observed at both ends of a real connection: `who` (the client
+    object, or a command of the command line) was given `u`; `caller` is what the library's own parse_url makes of `u`."""
+    c, seen, caller = obs["client"], obs["seen"], obs["caller"]
+    if c[0] == "invalid":
+        if seen or obs["asked"]:
+            return ("wire-sent-invalid", f"{who} refused {u!r} but a connection was made")
+        return None
+    if c[0] == "error":
+        return ("wire-client-error", f"{who} raised {c[1]} for {u!r}")
+    if caller[0] != "ok":
+        return ("wire-accepted-unparsable", f"{who} sent a request for {u!r} which parse_url rejects")
+    _, host, port, path, query, norm = caller
+    if obs["asked"] != [[host, port]]:
+        return ("wire-connect-target", f"{u!r} given to the {who}: connected to {obs['asked']} instead of {[host, port]}"
+                + (f"; the server was sent {seen[0][0]!r} and parsed host {seen[0][1]!r}, port {seen[0][2]!r}, path {seen[0][3]!r}, query {seen[0][4]!r}" if seen else ""))
+    if len(seen) != 1:
+        if len(norm.encode()) + 2 > 1024 and len(u.encode()) + 2 <= 1024:
+            return ("wire-rejected:normalised-longer-than-limit",
+                    f"{who} accepted {len(u.encode())}-byte URL {u[:40]!r}… but sent the {len(norm.encode())}-byte normalised form, which the server refused: {c}")
+        if host.startswith("v") and "[" in host and ":" not in host:
+            return ("norm-rejected:ipvfuture-inner-bracket", f"{who} sent {norm!r} for {u!r}; server answered {c}")
+        return ("wire-rejected", f"request line for {u!r} was not accepted by the server: {c}; handler calls {len(seen)}")
+    s = seen[0]
+    for name, x, y in (("hostname", host, s[1]), ("port", port, s[2]), ("path", path, s[3]), ("query", query, s[4])):
+        if x != y:
+            return (f"wire-changed:{name}", f"{u!r} given to the {who}: caller's {name} {x!r} ({cps(x) if isinstance(x, str) else x}), server saw {y!r} "
+                    f"({cps(y) if isinstance(y, str) else y}) (request line {s[0]!r})")
+    return None
+
+
+def wire_urls_fixed() -> list[str]:
+    fixed = [
+        "gemini://127.0.0.1/", "gemini://127.0.0.1", "gemini://[::1]/x", "gemini://[::1]:1965", "GEMINI://LOCALHOST:01965/A;b?C=d&e", "gemini://localhost?", "gemini://localhost?q",
+        "gemini://localhost/%2F%2e%2e/;p?x?y", "gemini://localhost:7/a//b", "gemini://[fe80::1%25lo]:70/z", "gemini://[v1.lo:x]/", "gemini://[v1.a[b]/", "gemini://exämple.com/é?ü",
+        "gemini://@localhost/x", "gemini://localhost/ x", "gemini://localhost/a\tb", " gemini://localhost/",
+        # the same text in its composed and decomposed spellings, singletons, jamo, marks out of canonical order, compatibility characters
+        "gemini://localhost/cafe\u0301?na\u0308ive", "gemini://localhost/caf\u00e9?na\u00efve", "Gemini://localhost:1966/\u212b/\u2126?\u212a", "gemini://localhost/\u1100\u1161\u11a8?\uac01",
+        "gemini://localhost/a\u0307\u0323/\u0958?\u0344", "gemini://localhost/\ufb01\uff21\u2460?\u00aa\u2000", "GEMINI://[::1]/\u0301x",
+    ]
+    # lengths around the limit: the client measures the caller's string, the server the normalised one
+    for total in (1020, 1021, 1022, 1023):
+        for shape in ("gemini://localhost?", "gemini://localhost/?", "gemini://localhost/", "gemini://LOCALHOST:1965/", "gemini://localhost"):
+            pad = total - len(shape)
+            fixed.append(shape + "q" * pad)
+    fixed.append("gemini://localhost/" + "é" * 501)
+    fixed.append("gemini://localhost/" + "é" * 502)
+    return fixed
+
+
+def wire_cases(fam, rng: random.Random, n: int, extra=()):
+    """URLs for the families that put a request on a real wire: this shard's part of the fixed list, then random ones
+    (every spelling of the scheme the library accepts, every kind of host, any port / path / query spelling)"""
+    cnt = 0
+    for u in fam.share(list(extra) + wire_urls_fixed()):
+        cnt += 1
+        yield {"u": u}
+    for _ in range(max(0, n - cnt)):
+        host = rng.choice(WIRE_HOSTS)
+        u = rng.choice(["gemini", "gemini", "Gemini", "GEMINI", "gEMINI"]) + "://" + host + gen_port(rng) + gen_path(rng) + gen_query(rng)
+        if rng.random() < 0.1:
+            u = mutate(rng, u)
+        yield {"u": u}
+
+
 class Wire(Family):
     realtime = True     # runs on the wall clock (sockets, threads): a failure is re-run once before it counts (core.run_family)
     name = "wire"
@@ -417,28 +491,7 @@ class Wire(Family):
         self._ready = True
 
     def gen(self, rng: random.Random, n: int):
-        fixed = [
-            "gemini://127.0.0.1/", "gemini://127.0.0.1", "gemini://[::1]/x", "gemini://[::1]:1965", "GEMINI://LOCALHOST:01965/A;b?C=d&e", "gemini://localhost?", "gemini://localhost?q",
-            "gemini://localhost/%2F%2e%2e/;p?x?y", "gemini://localhost:7/a//b", "gemini://[fe80::1%25lo]:70/z", "gemini://[v1.lo:x]/", "gemini://[v1.a[b]/", "gemini://exämple.com/é?ü",
-            "gemini://@localhost/x", "gemini://localhost/ x", "gemini://localhost/a\tb", " gemini://localhost/",
-        ]
-        # lengths around the limit: the client measures the caller's string, the server the normalised one
-        for total in (1020, 1021, 1022, 1023):
-            for shape in ("gemini://localhost?", "gemini://localhost/?", "gemini://localhost/", "gemini://LOCALHOST:1965/", "gemini://localhost"):
-                pad = total - len(shape)
-                fixed.append(shape + "q" * pad)
-        fixed.append("gemini://localhost/" + "é" * 501)
-        fixed.append("gemini://localhost/" + "é" * 502)
-        cnt = 0
-        for u in self.share(fixed):
-            cnt += 1
-            yield {"u": u}
-        for _ in range(max(0, n - cnt)):
-            host = rng.choice(WIRE_HOSTS)
-            u = rng.choice(["gemini", "gemini", "Gemini", "GEMINI"]) + "://" + host + gen_port(rng) + gen_path(rng) + gen_query(rng)
-            if rng.random() < 0.1:
-                u = mutate(rng, u)
-            yield {"u": u}
+        yield from wire_cases(self, rng, n)
 
     def impl(self, case):
         from nauyaca.client.session import GeminiClient
@@ -486,31 +539,7 @@ class Wire(Family):
         return expected["client"] == kind and expected["seen"] == obs["seen"]
 
     def oracle(self, case, obs):
-        c, seen, caller = obs["client"], obs["seen"], obs["caller"]
-        u = case["u"]
-        if c[0] == "invalid":
-            if seen or obs["asked"]:
-                return ("wire-sent-invalid", f"client refused {u!r} but a connection was made")
-            return None
-        if c[0] == "error":
-            return ("wire-client-error", f"client raised {c[1]} for {u!r}")
-        if caller[0] != "ok":
-            return ("wire-accepted-unparsable", f"client sent a request for {u!r} which parse_url rejects")
-        _, host, port, path, query, norm = caller
-        if obs["asked"] != [[host, port]]:
-            return ("wire-connect-target", f"{u!r}: connected to {obs['asked']} instead of {[host, port]}")
-        if len(seen) != 1:
-            if len(norm.encode()) + 2 > 1024 and len(u.encode()) + 2 <= 1024:
-                return ("wire-rejected:normalised-longer-than-limit",
-                        f"client accepted {len(u.encode())}-byte URL {u[:40]!r}… but sent the {len(norm.encode())}-byte normalised form, which the server refused: {c}")
-            if host.startswith("v") and "[" in host and ":" not in host:
-                return ("norm-rejected:ipvfuture-inner-bracket", f"client sent {norm!r} for {u!r}; server answered {c}")
-            return ("wire-rejected", f"request line for {u!r} was not accepted by the server: {c}; handler calls {len(seen)}")
-        s = seen[0]
-        for name, x, y in (("hostname", host, s[1]), ("port", port, s[2]), ("path", path, s[3]), ("query", query, s[4])):
-            if x != y:
-                return (f"wire-changed:{name}", f"{u!r}: caller's {name} {x!r}, server saw {y!r} (request line {s[0]!r})")
-        return None
+        return judge_wire(case["u"], obs, "client")
 
     def key(self, case, obs):
         c = obs["client"]
@@ -606,4 +635,179 @@ class Purity(Family):
         return f"{sum(1 for a in obs['after'] if a[0][0] == 'ok')} ok of {len(obs['after'])}"
 
 
-FAMILIES = [Parse(), Wire(), Purity()]
+# ------------------------------------------------------------------------------------------------
+# live, from the user's end: `nauyaca <command> <url>` -> TLS on loopback -> GeminiServerProtocol -> spy handler
+# ------------------------------------------------------------------------------------------------
+# option sets for the commands the harness knows (each is only used when the command declares the options); any OTHER
+# leaf command of the command tree that declares a URL parameter is run with the arguments synthesised from its declaration
+CMD_VARIANTS = {"get": [["-t", "5"], ["-t", "5", "--no-redirects"], ["-t", "5", "-v"], ["-t", "5", "--no-trust"], ["--no-redirects", "-v", "--no-trust", "-t", "5"], []]}
+
+
+def url_commands() -> list[dict]:
+    """leaf commands of the working tree's command line that take a URL (enumerated from the typer/click tree)"""
+    from ..sim import tls_startup
+
+    try:
+        cmds = tls_startup.cli_commands()
+    except Exception:  # noqa: BLE001
+        return []
+    out = []
+    for c in cmds:
+        if c["path"] and c["path"][0] == "serve":
+            continue
+        ups = [p for p in c["params"] if "url" in p["name"].lower() or "uri" in p["name"].lower()]
+        if ups:
+            out.append({"path": c["path"], "params": c["params"], "url_param": ups[0]["name"]})
+    return out
+
+
+class Cmdline(Family):
+    """The caller of the last sentence of the property is, for most users, the command line: every command of `nauyaca ...`
+    that takes a URL (found in the command tree of the working tree) is given every spelling the library accepts, and what
+    the connection was opened to and what the real server protocol parsed from the request line are compared with
+    the components the library's parse_url reads from the very same argument.  Arguments the library rejects are run too
+    (distribution only: a command line may be more generous than the library)."""
+    realtime = True     # runs on the wall clock (sockets, threads): a failure is re-run once before it counts (core.run_family)
+    name = "cmdline"
+    quick_n = 320
+    thorough_n = 4000
+
+    def setup(self):
+        import threading
+
+        from ..sim import url_upstream as U
+        from nauyaca.protocol.response import GeminiResponse
+        from nauyaca.server.protocol import GeminiServerProtocol
+
+        if getattr(self, "_ready", False):
+            return
+        self.seen: list = []
+        self.asked: list = []
+        self.home = core.mkdtemp("nv-c19home-")
+        ready = threading.Event()
+
+        def spy(request):
+            self.seen.append([request.raw_url, request.hostname, request.port, request.path, request.query])
+            return GeminiResponse(status=20, meta="text/plain", body="ok")
+
+        def serve():
+            loop = U.quiet_loop()
+            asyncio.set_event_loop(loop)
+            self.srv_loop = loop
+
+            async def start():
+                return await loop.create_server(lambda: GeminiServerProtocol(spy), "127.0.0.1", 0, ssl=U.server_context())
+
+            self.server = loop.run_until_complete(start())
+            self.port = self.server.sockets[0].getsockname()[1]
+            ready.set()
+            loop.run_forever()
+
+        self.thread = threading.Thread(target=serve, daemon=True)
+        self.thread.start()
+        if not ready.wait(20):
+            raise RuntimeError("spy server did not start")
+        self._ready = True
+
+    def gen(self, rng: random.Random, n: int):
+        cmds = url_commands() or [{"path": ["get"], "params": [], "url_param": "url"}]
+        i = 0
+        for c in wire_cases(self, rng, n, extra=["GEMINI://localhost:1234/p?q", "Gemini://LocalHost/", "gEMINI://[::1]:1966/a;b?c", "gemini://localhost:1234/p?q"]):
+            cmd = cmds[i % len(cmds)] if i < 4 * len(cmds) else rng.choice(cmds)
+            name = " ".join(cmd["path"])
+            vs = CMD_VARIANTS.get(name)
+            yield {"u": c["u"], "cmd": name, "opts": (vs[i % len(vs)] if i < 40 else rng.choice(vs)) if vs else None}
+            i += 1
+
+    def impl(self, case):
+        import asyncio.base_events as be
+        import os
+        import re
+        import threading
+
+        from typer.testing import CliRunner
+
+        from ..sim import tls_startup
+
+        import nauyaca.__main__ as M
+
+        u = case["u"]
+        cmd = next((c for c in url_commands() if " ".join(c["path"]) == case["cmd"]), None)
+        if cmd is None:
+            return {"client": ["absent", case["cmd"]], "asked": [], "seen": [], "caller": parse_obs(u), "argv": []}
+        if case["opts"] is not None:
+            argv = cmd["path"] + list(case["opts"]) + ["--", u]
+        else:
+            argv = tls_startup.synth_argv({"path": cmd["path"], "params": [p for p in cmd["params"] if p["name"] != cmd["url_param"]]}, self.port, self.home) + ["--", u]
+        self.seen.clear()
+        self.asked.clear()
+        me = threading.current_thread()
+        orig = be.BaseEventLoop.create_connection
+        fam = self
+
+        async def redirect(loop_self, protocol_factory, host=None, port=None, *, ssl=None, server_hostname=None, **kw):
+            if threading.current_thread() is not me:
+                return await orig(loop_self, protocol_factory, host, port, ssl=ssl, server_hostname=server_hostname, **kw)
+            fam.asked.append([host, port])
+            return await orig(loop_self, protocol_factory, host="127.0.0.1", port=fam.port, ssl=ssl, server_hostname="localhost" if ssl else None, **kw)
+
+        saved = {k: os.environ.get(k) for k in ("HOME", "NO_COLOR", "COLUMNS")}
+        os.environ.update(HOME=self.home, NO_COLOR="1", COLUMNS="4000")
+        alog = logging.getLogger("asyncio")
+        be.BaseEventLoop.create_connection = redirect
+        try:
+            res = CliRunner().invoke(M.app, argv)
+        finally:
+            be.BaseEventLoop.create_connection = orig
+            for k, v in saved.items():
+                if v is None:
+                    os.environ.pop(k, None)
+                else:
+                    os.environ[k] = v
+            core.configure_harness_logging()
+        text = (res.output or "")
+        try:
+            text += "\n" + (res.stderr or "")
+        except Exception:  # noqa: BLE001  (stderr not captured separately)
+            pass
+        code = res.exit_code
+        m = re.search(r"^\[(\d\d)\]", text, re.M)
+        if code == 0:
+            client = ["resp", 20, ""]
+        elif code == 2 and not self.asked:
+            client = ["usage", 2]
+        elif re.search(r"^Error: ", text, re.M):
+            client = ["invalid", err_kind(text)]
+        elif m:
+            client = ["resp", int(m.group(1)), ""]
+        else:
+            first = next((ln.strip() for ln in text.splitlines() if ln.strip()), "")
+            client = ["error", first.split(":")[0][:40] or f"exit {code}"]
+        return {"client": client, "asked": list(self.asked), "seen": list(self.seen), "caller": parse_obs(u), "argv": argv[:-1]}
+
+    def model(self, case):
+        return None     # families parse and wire compare with the Lean model; the command line is judged by the property's oracle
+
+    def oracle(self, case, obs):
+        if obs["caller"][0] != "ok":
+            return None     # not a URL the library accepts: the property says nothing (a command line may complete or refuse it)
+        if obs["client"][0] in ("absent", "usage"):
+            return None
+        who = "command `nauyaca " + " ".join(obs["argv"]) + " <url>`"
+        if case["opts"] is None and not obs["asked"]:
+            return None     # a command the harness has no recipe for and that opened no connection: nothing was put on a wire
+        v = judge_wire(case["u"], obs, who)
+        return None if v is None else ("cmdline-" + v[0], v[1])
+
+    def key(self, case, obs):
+        c = obs["client"]
+        scheme = case["u"].split(":")[0]
+        sp = "lower-case scheme" if scheme == scheme.lower() else "upper/mixed-case scheme"
+        if obs["caller"][0] != "ok":
+            return f"{case['cmd']}: rejected by the library ({obs['caller'][1]}) -> {c[0]}{' (CONNECTED)' if obs['asked'] else ''}"
+        if c[0] != "resp":
+            return f"{case['cmd']}: accepted, {sp} -> {c[0]}:{c[1]}"
+        return f"{case['cmd']}: accepted, {sp}, {classify_host(case['u'], None)}{' non-ascii text' if any(ord(ch) > 127 for ch in case['u'].split('://', 1)[-1].partition('/')[2]) else ''} -> resp{c[1]}"
+
+
+FAMILIES = [Parse(), Wire(), Purity(), Cmdline()]
